@@ -18,6 +18,8 @@ structure FramePlan where
   tree : Tree := .leaf { ctx := 0, pred := 0, offset := 0, mul := 1 }
   wp : Wp := {}
   coded : Bool := false
+  /-- entropy coding mode of the sample and tree streams (see `SampleCoder`) -/
+  ent : Nat := 0
   deriving Inhabited
 
 structure FrameOut where
@@ -29,6 +31,7 @@ structure FrameOut where
   /-- statistics for coverage accounting -/
   paths : List String
   numGroups : Nat
+  entUsed : Nat := 0
   deriving Inhabited
 
 def ceilDiv (a b : Nat) : Nat := (a + b - 1) / b
@@ -120,12 +123,11 @@ def encodeFrame (img : ImgHdr) (p : FramePlan) : Option FrameOut :=
             if ptoks.any Option.isNone then none
             else
               let ptoks := ptoks.map (·.getD [])
-              let allToks := gtoks ++ ptoks.flatMap id
               let clusters := leafCtxIndex p.tree
               -- LfGlobal: lf_dequant.all_default, global tree present, MaConfig, ModularHeader, data
               let w : BW := #[]
               let w := (w.bool true).bool true
-              let (w, plan) := writeMaConfig w p.tree allToks
+              let (w, plan) := writeMaConfig w p.ent p.tree (gtoks :: ptoks)
               let w := writeModularHeader w true p.wp p.transforms
               let w := writeSamples w plan clusters gtoks
               let lfGlobal := w.padByte.toBytes
@@ -173,6 +175,6 @@ def encodeFrame (img : ImgHdr) (p : FramePlan) : Option FrameOut :=
                         | some (chs, _) => (chs.getD before.length default).get (x % gw) (y % gh)
                         | none => 0
                     some (inverseAll sb img.bits p.wp ts (gch ++ rebuilt))
-              some { bytes := writeFrame img f sections, expected, modelDecoded, paths, numGroups }
+              some { bytes := writeFrame img f sections, expected, modelDecoded, paths, numGroups, entUsed := plan.mode }
 
 end Jxl.Enc
